@@ -82,7 +82,7 @@ CLAIMED = {
     "C16": {
         "engine": "vec",
         "technique": "Coq proof (loop invariant of DrainFilter::next + permutation conservation under arbitrary panic positions; truncate with panicking destructors) + drop-ledger driver enumerating panic points",
-        "text": "C16_drain_filter_no_double_drop / C16_drain_filter_nodup / C16_truncate_panicking_drop hold for every answer script (a panic at any predicate invocation, any number of items taken by the caller). The driver panics predicates, Clone, Drop and iterators at random invocation indices and checks: no identity twice, nothing dropped reachable, exact final drop. Partial: dedup_by/resize/extend/String::retain/Box are decided on the implementation only. C16_string_retain_panic_safe (StringRetain.v: the loop of String::retain at buffer level with its length guard; for every valid text and every script of keep/delete/panic answers the string after unwinding holds exactly the characters kept so far, valid UTF-8) with C16_source_string_retain / C16_source_string_retain_frames (the guard's new length, the move test and the memmove arguments parsed from string.rs on every run; the surrounding statements pinned); the checker steps every retain with a panicking predicate through the extracted retain_run. C16_resize_clone_panic / C16_resize_clone_panic_no_double_drop (VecPanic.v: resize / extend_with when Clone panics at any call: old contents plus the clones made so far, the value dropped exactly once and unreachable); the checker steps every resize with a panicking Clone through the extracted resize_clone_panic. C16_extend_panic (extend / extend_from_slice when the iterator or Clone panics after j items: exactly those were pushed), also stepped by the checker.",
+        "text": "C16_drain_filter_no_double_drop / C16_drain_filter_nodup / C16_truncate_panicking_drop hold for every answer script (a panic at any predicate invocation, any number of items taken by the caller). The driver panics predicates, Clone, Drop and iterators at random invocation indices and checks: no identity twice, nothing dropped reachable, exact final drop. Partial: dedup_by/resize/extend/String::retain/Box are decided on the implementation only. C16_string_retain_panic_safe (StringRetain.v: the loop of String::retain at buffer level with its length guard; for every valid text and every script of keep/delete/panic answers the string after unwinding holds exactly the characters kept so far, valid UTF-8) with C16_source_string_retain / C16_source_string_retain_frames (the guard's new length, the move test and the memmove arguments parsed from string.rs on every run; the surrounding statements pinned); the checker steps every retain with a panicking predicate through the extracted retain_run. C16_resize_clone_panic / C16_resize_clone_panic_no_double_drop (VecPanic.v: resize / extend_with when Clone panics at any call: old contents plus the clones made so far, the value dropped exactly once and unreachable); the checker steps every resize with a panicking Clone through the extracted resize_clone_panic. C16_extend_panic (extend / extend_from_slice when the iterator or Clone panics after j items: exactly those were pushed), also stepped by the checker. C16_source_truncate_loop / C16_source_truncate_loop_is_the_model (the for loop of Vec::truncate, translated from vec.rs on every run with destructors answered by a script: for every count and script it lowers the length, steps back and drops exactly as the model's truncate_loop, a panic included).",
         "design_ref": "DESIGN.md §6 C16",
     },
     "C19": {
